@@ -82,6 +82,8 @@ KINDS = {
     "eof_u8": "uint8 {n}[EOF];",
     "eof_u16": "uint16 {n}[EOF];",
     "eof_char": "char {n}[EOF];",
+    "eof_i24": "int24 {n}[EOF];",
+    "eof_e24": "E24 {n}[EOF];",
     "inner": "inner {n};",
     "dyn": "dyn {n};",
     "anon_s": "struct {{ uint8 {n}a; uint16 {n}b; }};",
@@ -115,7 +117,7 @@ KINDS = {
     "bf32_whole": "F32 {n}x:32;",
 }
 
-EOF_KINDS = {"eof_u8", "eof_u16", "eof_char"}
+EOF_KINDS = {"eof_u8", "eof_u16", "eof_char", "eof_i24", "eof_e24"}
 SINGLE_ONLY = {"same_hdr"}  # fixed member names: only meaningful alone
 
 # quick alphabet: covers every (size, alignment) class and every reader/writer/generator branch
